@@ -86,6 +86,49 @@ CHECKS = {
               "the workers must equal the dumped ones.",
               "Trusts that the hook calls the same build_execution_graph/NetworkTopology::build as start_blocking (it does, by construction of the hook).",
               "runtime monitoring: invariant checker on the hooked graph construction, cross-host comparison, confirmed against executed link logs"),
+    "C04": _c("termination", "Every job runs under a watchdog that maintains, from the worker / network-thread / channel hooks, the state of every engine thread; a job "
+              "completes when execute_blocking returned on every host, every started worker and network thread ended and each sink yielded its result on exactly one "
+              "host; it is deadlocked iff a quiescence certificate is obtained (every live engine thread parked in a blocking primitive and no engine event across three "
+              "snapshots) - a wall-clock cap without certificate is inconclusive. Workloads: deadlock-prone shapes (inputs far above the 16-batch channels with single-element "
+              "batches, diamonds with a slow branch into zip/join/merge, replay/iterate with shuffles, nesting and side inputs, empty inputs, one-core hosts) and random programs.",
+              "Absence of deadlock is 'none among the executions produced'; channel operations are the engine's only waiting points, which makes the certificate a stable fact.",
+              "runtime monitoring: online thread-state census from hooks + quiescence certificate; sink-completion oracle"),
+    "C06": _c("scripts", "A scripted source replays, on 1-5 replicas, random timestamp/watermark sequences that respect the contract (with forced coincidences: watermark equal to "
+              "an element timestamp or a window end, silent replicas, early enders), optionally in lock-step so that the arrival order at the first Start is exact; the stream "
+              "goes through shuffles, group-by, map/flat_map, fold, keyed fold, reorder, count / event-time windows, also as the body of a replay loop; a watermark automaton "
+              "runs on the trace of a probe after every operator on every replica.",
+              "Scripts have one iteration (several iterations come from a real replay loop, whose barrier is what synchronises replicas in real jobs).",
+              "runtime monitoring: online watermark automaton on probe traces of scripted executions"),
+    "C13": _c("winmon_time", "The real event-time and transaction window managers are driven through process() with random valid scripts (out-of-order arrivals, idle gaps, watermarks on "
+              "window boundaries, several iterations, recycling exactly as WindowOperator does) and end-to-end with several source replicas; results are id sets checked "
+              "against the rules of the statement: one interval of the window length, tumbling = exactly one result per element, sliding = 1..ceil(size/slide), fired no "
+              "earlier than a watermark reaching the end and no later than the first one beyond it, nothing carried across iterations; transaction windows against a 20-line "
+              "model of the user logic.",
+              "Window boundaries depend on the first arrival and are not predicted; only the partition / interval / firing rules are checked.",
+              "runtime monitoring: rule checker over outputs of the real window managers (scripts) and end-to-end jobs"),
+    "C14": _c("winmon_time", "Processing-time (tumbling, sliding) and session window managers are driven with wall-clock pauses drawn around the window size / gap (0, s/2, just below, "
+              "exact, just above, 3s) and in keyed pipelines fed through a channel source; the verdict never depends on timing: per key the results must partition the arrival "
+              "sequence in order (tumbling, session) or cover each element 1..ceil(size/slide) times (sliding), none empty, everything flushed at the end.",
+              "Timing only shapes the workload (classes of pauses used are reported); the oracle is timing independent.",
+              "runtime monitoring: timing-independent conservation/order oracle over real window managers under wall-clock stress"),
+    "C17": _c("scripts", "With the link log on, the batches a consumer replica actually received (in its own arrival order) drive a reference model of the block input written from the "
+              "statement: minimum over the upstream replicas that have not ended their iteration of their latest watermark; whenever it rises, the probe right after Start "
+              "must show Watermark(new minimum) before any later element. Because the expectation is computed from observed arrivals the check is schedule independent and "
+              "also runs on multi-host, binary-start and in-loop jobs. Increases caused by a replica's end are the open finding F2.",
+              "Trusts the 40-line frontier model; arrival order is the order of Recv hook events on the consumer's own thread.",
+              "runtime monitoring: reference-model monitor over hooked receive events vs. probe trace"),
+    "C18": _c("latmon", "A harness thread hands bursts of fewer elements than the batch size to a channel source and then stays silent; with adaptive batching every element must reach "
+              "collect_channel while the source is idle and open within 2 s + 100 x depth x max_delay (two orders of magnitude above the claim; a miss is re-run 3 times and only "
+              "a reproducible one is a violation); with any mode everything must have arrived once the source is closed. Latencies are reported as multiples of depth x max_delay.",
+              "The only intrinsically wall-clock property: decided on a bound far above the claim so that load cannot flip it.",
+              "runtime monitoring: bounded-progress monitor at the client boundary (send/arrival times)"),
+    "C20": _c("faultmon", "Crash points are enumerated: for random acyclic programs and configurations a clean run records how many elements each (operator, replica) forwards; the job is "
+              "re-run with a fault injector panicking right before the first / middle / last element or the end-of-iteration marker at operators spread over the program. "
+              "Oracle: execute_blocking fails on every host running the failed replica or anything downstream (closure from the hooked graph dump), no downstream sink handle "
+              "holds a value, channel sinks disconnect and never deliver the unforwarded element, every worker and network thread ends (a quiescence certificate = violation).",
+              "Crash points are sampled per program from the enumerated set when it exceeds the budget; hosts are threads of one process.",
+              "runtime monitoring with fault injection at enumerated crash points; fail-stop oracle on outcomes and thread census", category="fault_enumeration"),
+
 }
 
 NOT_YET = {}
